@@ -1854,16 +1854,18 @@ func (s *Session) next(fr *Frame, x *ssa.Next, st *State) {
 	if src, okk := rangeSrcs[fr][x.Iter]; okk && !x.IsString {
 		if mt, isMap := src.Type().Underlying().(*types.Map); isMap {
 			m := s.valueOf(fr, src).T0()
-			if len(out.Tup[1].L) == 1 || true {
-				if _, inv := tup.At(1).Type().(*types.Basic); !(inv && tup.At(1).Type() == types.Typ[types.Invalid]) {
-					k := s.keyTerm(out.Tup[1])
-					mv, had := s.mapLookup(st, mt, m, k)
-					s.assume(Imp(ok, had))
-					if tup.At(2).Type() != types.Typ[types.Invalid] && len(mv.L) == len(out.Tup[2].L) {
-						for i := range mv.L {
-							s.assume(Imp(ok, Eq(out.Tup[2].L[i], mv.L[i])))
-						}
-					}
+			keyUsed := !types.Identical(tup.At(1).Type(), types.Typ[types.Invalid])
+			var k T
+			if keyUsed {
+				k = s.keyTerm(out.Tup[1])
+			} else {
+				k = s.fresh("next_key", SInt) // `for _, v := range m`: v is the value of SOME key of the map
+			}
+			mv, had := s.mapLookup(st, mt, m, k)
+			s.assume(Imp(ok, had))
+			if tup.At(2).Type() != types.Typ[types.Invalid] && len(mv.L) == len(out.Tup[2].L) {
+				for i := range mv.L {
+					s.assume(Imp(ok, Eq(out.Tup[2].L[i], mv.L[i])))
 				}
 			}
 		}
